@@ -570,6 +570,8 @@ func runHsrvCase(t *testing.T, c map[string]any, tmp string) map[string]any {
 			} else {
 				ar["error"] = err.Error()
 			}
+		case "rmroot": /* the directory files are served from disappears while the server is up (unmounted, cleaned away) */
+			os.RemoveAll(root)
 		case "tmpl": /* edit / remove the template file */
 			if v, ok := am["c"].(string); ok && tmplLinked {
 				oldT := filepath.Join(base, "releases", fmt.Sprintf("v%d.tmpl", tmplGen))
